@@ -492,7 +492,7 @@ def run(only=None):
             continue
         s = rep.sub(name, rule=f"BFS to fix-point, peers={cls.PEERS}, datagram classes={cls.KINDS}; non-trivial = distinct (class, outputs, step) observations")
         import time as _t
-        res = explore.bfs(cls, max_depth=depth, log=rep.log, deadline=_t.perf_counter() + (480 if rep.thorough() else 60))
+        res = explore.bfs(cls, max_depth=depth, log=rep.log, deadline=_t.perf_counter() + (900 if rep.thorough() else 300))  # safety net against a runaway search, not a budget
         explore.feed(s, res, WHAT, name=name, rep=rep)
         s.exhaustive = res.exhausted or depth is not None
         if res.capped:
